@@ -151,6 +151,11 @@ func runFrames(res *lp.Result, prop string) {
 					}
 					if cs.comp != nil {
 						f.SetCompress(rng.Intn(4) != 0 || i >= per)
+						if (kind == "Options" || kind == "Ready") && rng.Intn(2) == 0 {
+							// SetCompress leaves these alone, but the flag is a header bit any caller or peer can set: an EMPTY body travels
+							// compressed (LZ4: length 0 and a one-byte empty block; Snappy: one byte)
+							f.Header.Flags = f.Header.Flags.Add(primitive.HeaderFlagCompressed)
+						}
 					}
 					// the encoder must not read Header.BodyLength (it is documented as computed on encode): any value may be there
 					if rng.Intn(2) == 0 {
